@@ -296,6 +296,9 @@ func NewWorld(cfg Config, oracles []Oracle, logOn bool) (*World, error) {
 	mg := &mhub2types.GenesisState{Params: params, TokenInfos: &mhub2types.TokenInfos{TokenInfos: infos}}
 	for ci, ch := range Chains {
 		es := &mhub2types.ExternalState{ChainId: ch}
+		if ch != "minter" {
+			es.LastOutgoingBatchTxNonce = cfg.BatchNonceStart
+		}
 		for vi, v := range w.Vals {
 			if cfg.Keys[vi][ci] {
 				es.DelegateKeys = append(es.DelegateKeys, &mhub2types.MsgDelegateKeys{ValidatorAddress: v.Oper.ValAddr().String(),
